@@ -40,7 +40,7 @@ TIERS = {
     "quick": dict(lives=128, n_random=28, n_mut=2, optsets=3, per_life=(2, 4), large=False,
                   p_rl=0.35, budget=600, ddmin_trials=240, max_min_classes=3),
     "thorough": dict(lives=1500, n_random=320, n_mut=12, optsets=4, per_life=(2, 5), large=True,
-                     p_rl=0.35, budget=1800, ddmin_trials=900, max_min_classes=8),
+                     p_rl=0.35, budget=1800, ddmin_trials=900, max_min_classes=8, max_attr_classes=60),
     "smoke": dict(lives=12, n_random=4, n_mut=1, optsets=2, per_life=(2, 3), large=False,
                   p_rl=0.3, budget=600, ddmin_trials=160, max_min_classes=2),
 }
@@ -517,8 +517,8 @@ def attribute_and_minimise(v: dict, plans_by_life: dict, mini: Minimiser) -> dic
     fa = sub_life(pa, needed_ops(pa["ops"], wa["i"]) + [wa["i"]], 0)
     fb = sub_life(pb, needed_ops(pb["ops"], wb["i"]) + [wb["i"]], 1)
     # 1. does the outcome depend on sympy's own RNG (same hash key, same history, other
-    #    sympy seed)?  Tested on the short fresh lives first, then on the full histories.
-    for base in (fa, fb, sub_life(pa, list(range(wa["i"] + 1)), 0), sub_life(pb, list(range(wb["i"] + 1)), 0)):
+    #    sympy seed)?  First on the short fresh lives (cheap) ...
+    for base in (fa, fb):
         sens, pair = rng_sensitive(base, key, mini)
         if sens:
             doc["kind"] = "sympy-rng"
@@ -536,6 +536,13 @@ def attribute_and_minimise(v: dict, plans_by_life: dict, mini: Minimiser) -> dic
         doc["lives"] = lives
         doc["minimised_key"] = key2
         return doc
+    #    ... then on the full histories (fewer alternative seeds: these lives are long)
+    for base in (sub_life(pa, list(range(wa["i"] + 1)), 0), sub_life(pb, list(range(wb["i"] + 1)), 0)):
+        sens, pair = rng_sensitive(base, key, mini, k=3)
+        if sens:
+            doc["kind"] = "sympy-rng"
+            doc["lives"] = pair
+            return doc
     # 3. history: some life disagrees with its own fresh run under the same hash key and
     #    the same sympy seed
     for (w, p) in ((wa, pa), (wb, pb)):
@@ -862,7 +869,13 @@ def main(tier: str, workers: int = 16) -> int:
         mini.new_class()
         try:
             mini.frozen = mini.trials >= mini.max_trials or n_ck >= cfg.get("max_min_classes", 3)
-            doc = attribute_and_minimise(v, plans_by_life, mini)
+            if n_ck >= cfg.get("max_attr_classes", 12):
+                # far more violating classes than an intact tree ever shows: report the rest
+                # as they are (two complete witness lives = an exact replay), unclassified
+                doc = {"property": "C09", "key": v["key"], "op_kind": v["op_kind"], "model": v["model"], "kind": "unclassified",
+                       "lives": [dict(plans_by_life[w["life"]]) for w in v["witnesses"]]}
+            else:
+                doc = attribute_and_minimise(v, plans_by_life, mini)
         except core.HarnessError as e:
             print("HARNESS-ERROR during minimisation: %s" % e)
             return core.EXIT_HARNESS
